@@ -10,7 +10,7 @@ from . import poolmodel as pm
 
 TRUSTED = ["ghost socket contract extended with a non-Exception BaseException outcome at every socket call"]
 ASSUMPTIONS = ["interruptions are raised inside socket calls (as the statement says); signals delivered between bytecodes are not modelled"]
-NOT_COVERED = ["multi-key fetches", "HashClient wrappers (they add no handler of their own around the inner client)"]
+NOT_COVERED = ["HashClient wrappers (they add no handler of their own around the inner client)"]
 BUDGET = {"quick": 30, "thorough": 120}
 FILTER_BY_PROPERTY = True
 REPLAY_UNDECIDED = False
@@ -20,5 +20,6 @@ def build(E, tier):
     cm.verify_misc_cmd(E, "C10", "async")
     cm.verify_store_cmd(E, "C10", "async", verbs=("set",), flag_kinds=("none", "int"))
     cm.verify_fetch_cmd(E, mode="async", names=("get", "gets", "gat", "gats") if tier == "thorough" else ("gets",))
+    cm.verify_fetch_many(E, mode="async", names=("get", "gets") if tier == "thorough" else ("get",), iter_kinds=("one-shot",))
     pm.verify_pooled_client(E, mode="async")
     pm.verify_pool_async(E)
